@@ -60,6 +60,10 @@ func (c *RowCollector) CollectResolvedRow(errChan chan<- error, origChan <-chan 
 				c.cd = m.ColDiff
 				// collected rows are in the merged layout, where the key columns come first
 				c.resolvedRows.PK = c.cd.PKIndices()
+				if len(c.resolvedRows.PK) == 0 {
+					// without a primary key the whole row is the key: the sorter needs the row width
+					c.resolvedRows.Columns = append([]string{}, c.cd.Names...)
+				}
 			} else if m.Resolved {
 				err := c.SaveResolvedRow(m.PK, m.ResolvedRow)
 				if err != nil {
@@ -108,7 +112,12 @@ func (c *RowCollector) collectRowsThatStayedTheSame() error {
 		}
 		for _, row := range blk {
 			hash.Reset()
-			_, err := hash.Write(enc.Encode(slice.IndicesToValues(row, c.baseT.PK)))
+			key := row
+			if len(c.baseT.PK) > 0 {
+				key = slice.IndicesToValues(row, c.baseT.PK)
+			}
+			// (without a primary key a row is identified by all of its cells, as in the diff)
+			_, err := hash.Write(enc.Encode(key))
 			if err != nil {
 				return err
 			}
